@@ -102,6 +102,18 @@ def boundary_docs():
                     fmt = [{"at": at, "len": ln_, "key": key}] + ([second] if second else [])
                     out.append(({"txt": "hello", "fmt": fmt, "ent": ents}, 4))
                     out.append(({"txt": "hello", "fmt": list(reversed(fmt)), "ent": ents}, 80))
+    # entity arrays with null / non-object slots between real entities (the decoder drops them, so a reference is
+    # judged against the entities that REMAIN, not against the raw array), every key from -1 to the raw length + 1
+    real = lambda i: {"tp": ["LN", "MN", "IM"][i % 3], "data": {"url": "u%d" % i, "name": "n%d" % i, "val": "v"}}
+    for n in (1, 2, 3):
+        for mask in range(1, 2 ** n):          # at least one slot that is not an entity
+            for junk in (None, 5, "x"):
+                raw = [junk if (mask >> i) & 1 else real(i) for i in range(n)]
+                for key in range(-1, n + 2):
+                    for second in (None, {"at": 1, "len": 1, "tp": "ST"}):
+                        fmt = [{"at": 0, "len": 1, "key": key}] + ([second] if second else [])
+                        out.append(({"txt": "ab", "fmt": fmt, "ent": raw}, 4))
+                        out.append(({"txt": "ab", "fmt": fmt, "ent": raw}, 80))
     return out
 
 
